@@ -170,6 +170,7 @@ func cmdCheck(args []string) int {
 	noEvidence := fs.Bool("no-evidence", false, "")
 	module := fs.String("module", "", "module path (default: martian)")
 	replaysFlag := fs.String("replays", "", "directory for replay files (default <verif>/replays)")
+	only := fs.String("only", "", "debug: verify only functions whose key contains this substring")
 	listAll := fs.Bool("list", false, "print every obligation with its status")
 	fs.Parse(args)
 	if *module != "" {
@@ -207,6 +208,9 @@ func cmdCheck(args []string) int {
 	var pk []string
 	for _, fc := range cs.Funcs {
 		if fc.Extern || fc.IsIface || fc.Trusted || !serves(fc) {
+			continue
+		}
+		if *only != "" && !strings.Contains(fc.Key, *only) {
 			continue
 		}
 		fcs = append(fcs, fc)
@@ -382,7 +386,7 @@ func cmdCheck(args []string) int {
 
 	exit := 0
 	for _, k := range knownHit {
-		fmt.Printf("KNOWN-FINDING: property=%s %s\n", *prop, strings.TrimSpace(strings.TrimPrefix(k, "known:")))
+		fmt.Printf("KNOWN-FINDING: %s\n", strings.TrimSpace(strings.TrimPrefix(k, "known:")))
 	}
 	replayDir := filepath.Join(*verif, "replays", *prop)
 	if *replaysFlag != "" {
